@@ -9,6 +9,7 @@ import (
 	"io"
 	"os"
 	"strings"
+	"time"
 
 	"github.com/sirupsen/logrus"
 )
@@ -28,6 +29,9 @@ func main() {
 	flag.StringVar(&driverPath, "driver", "/verif/lean/.lake/build/bin/lsdriver", "lsdriver binary")
 	concChild := flag.String("conc-storage-child", "", "internal: run the global-storage scenario in this fresh process")
 	flag.Parse()
+	// Lightning Stream must not depend on the host's time zone: the whole harness runs with a
+	// non-UTC local zone (time.Now(), time.Unix and header.Timestamp.Time() all carry it).
+	time.Local = time.FixedZone("VERIF", -(7*3600 + 1800))
 	if *concChild != "" {
 		storageChild(*concChild)
 		return
